@@ -301,8 +301,11 @@ def helper_oracle(kind: str, bias: bool):  # noqa: ANN201
     return oracle
 
 
+_VERIFIED_ALT: list[str] = []
+
+
 def helper_flags(bias: bool, padded: bool = True) -> dict:
-    return {'self.has_bias()': bias, 'self.module.has_bias()': bias, 'padding[0] + padding[1] > 0': padded, 'b is None': True, 'scale is None': True, 'len(a.shape) != 2': False}
+    return {**{t: False for t in _VERIFIED_ALT}, 'self.has_bias()': bias, 'self.module.has_bias()': bias, 'padding[0] + padding[1] > 0': padded, 'b is None': True, 'scale is None': True, 'len(a.shape) != 2': False}
 
 
 def _call(ctx: Ctx, cls: str, meth: str, args: dict, oracle: Any, flags: dict, kind: str = 'method') -> tuple[Interp, Any]:
@@ -345,6 +348,8 @@ def rule_layout(ctx: Ctx) -> None:
             # --- A factor
             a_in = TV(('B', 'S', 'IN'), XU, 'factor') if kind == 'linear' else TV(('B', 'C', 'H', 'W'), XU, 'factor')
             ita, A = _call(ctx, cls, 'get_a_factor', {'a': a_in}, orc, fl)
+            if isinstance(A, T.Top):
+                rule_alt_paths(ctx)
             _need(A, f'{cls}.get_a_factor [{tag}]')
             _report_all(ctx, 'TT-BIASLAST', ita, tag)
             _incomplete(ita, f'{cls}.get_a_factor [{tag}]')
@@ -988,3 +993,97 @@ def rule_clip_shard(ctx: Ctx) -> None:
     ctx.check(has_coll, 'CLIP-SHARD', g, '_compute_grad_scale (GPT-NeoX family) reduces the inner products over the model-parallel group', 'gpt clip scale',
               'GPT-NeoX family: every rank holds only its shard of each layer gradient (see TT-GPT), but _compute_grad_scale sums the local shards only and issues no collective: '
               'the clip factor differs between model-parallel peers and from the unsharded value (C07 "one scalar shared by every rank", C11 "clipping included")', g.node)
+
+
+# --------------------------------------------------------------------------- alternative paths under branch facts
+
+def _facts_of(test: ast.expr) -> dict[str, str] | None:
+    """Facts implied by a test being true, for tests of the form max(self.module.<cfg>) == c / self.module.<cfg> == (c, c) joined by `and`."""
+    import re
+    out: dict[str, str] = {}
+    parts = test.values if isinstance(test, ast.BoolOp) and isinstance(test.op, ast.And) else [test]
+    for pt in parts:
+        t = norm(pt).replace(' ', '')
+        m = re.fullmatch(r'max\(self\.module\.(kernel_size|padding|stride)\)==(\d+)', t) or re.fullmatch(r'self\.module\.(kernel_size|padding|stride)==\((\d+),\2\)', t)
+        if not m:
+            return None
+        out[m.group(1)] = m.group(2)
+    return out
+
+
+def _simplify_axes(a: Any, facts: dict[str, str]) -> Any:
+    if isinstance(a, tuple) and a:
+        if a[0] == 'pad' and facts.get('padding') == '0':
+            return _simplify_axes(a[1], facts)
+        if a[0] == 'ker' and facts.get('kernel_size') == '1':
+            return 'ONE'
+        if a[0] == 'win' and facts.get('kernel_size') == '1' and facts.get('stride') == '1':
+            return _simplify_axes(a[1], facts)
+        if a[0] == 'prod':
+            return T.prod_axis([_simplify_axes(x, facts) for x in a[1:]])
+        return tuple([a[0]] + [_simplify_axes(x, facts) for x in a[1:]])
+    if a in ('KH', 'KW') and facts.get('kernel_size') == '1':
+        return 'ONE'
+    return a
+
+
+def rule_alt_paths(ctx: Ctx) -> None:
+    """SIB-PATH: a special-case path guarded by a configuration test must agree with the general path under the facts the test implies."""
+    p = ctx.prog
+    ctx.rule('SIB-PATH', 'special-case paths of the helpers agree with the general path under the facts their guard implies', floor=0)
+    for cls, meth, arg in ((CONV, 'get_a_factor', TV(('B', 'C', 'H', 'W'), XU, 'factor')), (CONV, 'get_g_factor', TV(('B', 'OUT', 'OH', 'OW'), GAMMA, 'factor')),
+                           (LIN, 'get_a_factor', TV(('B', 'S', 'IN'), XU, 'factor')), (LIN, 'get_g_factor', TV(('B', 'S', 'OUT'), GAMMA, 'factor'))):
+        f = p.lookup_method(cls, meth)
+        kind = 'conv' if cls == CONV else 'linear'
+        fl0 = helper_flags(True)
+        tests = [n.test for n in p.nodes(f) if isinstance(n, ast.If) and (norm(n.test) not in fl0 or norm(n.test) in _VERIFIED_ALT) and not norm(n.test).startswith('self.has_bias')]
+        for t in tests:
+            facts = _facts_of(t)
+            pname = [a for a in f.params if a != 'self'][0]
+            res = {}
+            for val in (True, False):
+                it, r = _call(ctx, cls, meth, {pname: arg}, helper_oracle(kind, True), {**fl0, norm(t): val})
+                res[val] = (r, it)
+            special, general = res[True][0], res[False][0]
+            if not isinstance(special, TV) or not isinstance(general, TV):
+                raise AnalysisIncomplete(f'{cls}.{meth}: path under `{norm(t)}` evaluates to {special} / {general}')
+            if facts is None:
+                if (special.axes, special.coef, special.unit) != (general.axes, general.coef, general.unit):
+                    raise AnalysisIncomplete(f'{cls}.{meth}: the paths of `{norm(t)}` differ and the test is outside the modelled fact vocabulary')
+                ctx.ok('SIB-PATH', f, f'{meth}: both paths of `{norm(t)}` have the same type', t)
+                continue
+            ga = tuple(_simplify_axes(a, facts) for a in _rename_kernel_axes(general).axes)
+            sa = tuple(_simplify_axes(a, facts) for a in _rename_kernel_axes(special).axes)
+
+            def coefs(v: TV) -> dict:
+                import re as _re
+                out = {}
+                for k, e in v.coef:
+                    out[k] = e
+                return out
+            # coefficients are keyed by axis text: re-derive them by evaluating the spatial/row axes under the facts
+            gc = _coef_under(general, facts)
+            sc = _coef_under(special, facts)
+            ok = ga == sa and gc == sc
+            if ok:
+                ctx.extra.setdefault('verified_alt_tests', []).append(norm(t))
+                if norm(t) not in _VERIFIED_ALT:
+                    _VERIFIED_ALT.append(norm(t))   # proven equivalent: the other rules follow the general path
+            ctx.check(ok, 'SIB-PATH', f, f'{meth}: special path under {facts} agrees with the general path', norm(t)[:100],
+                      f'{cls.rsplit(".", 1)[1]}.{meth}: the special-case path guarded by `{norm(t)}` yields {special} (normalisation {sc}) but the general path, under the facts {facts} the guard implies, '
+                      f'yields {T.axes_str(ga)} (normalisation {gc}): the shortcut is only equivalent under additional conditions (e.g. stride 1) that the guard does not test', t)
+
+
+def _coef_under(v: TV, facts: dict[str, str]) -> dict:
+    """Size coefficients with axis texts simplified under the facts (the texts were produced by axes_str)."""
+    out: dict[str, int] = {}
+    for k, e in v.coef:
+        kk = k
+        if facts.get('padding') == '0':
+            import re
+            kk = re.sub(r'pad\((\w+),padding\[\d\]\)', r'\1', kk)
+        if facts.get('kernel_size') == '1' and facts.get('stride') == '1':
+            import re
+            kk = re.sub(r'win\((\w+),kernel_size\[\d\],stride\[\d\]\)', r'\1', kk)
+        out[kk] = out.get(kk, 0) + e
+    return out
